@@ -278,20 +278,19 @@ theorem packRT {ty : Ty} {v : Val} (hp : packTy ty = true) (hg : goodTy ty = tru
         simp only [packTy] at hp
         exact packRT_listList hp xs hne hr
   | model sfs h2f f2h =>
-    simp only [packTy, Bool.and_eq_true, List.isEmpty_iff, List.all_eq_true] at hp
-    obtain ⟨rfl, hbasic⟩ := hp
+    simp only [packTy, Bool.and_eq_true, List.all_eq_true, decide_eq_true_eq] at hp
     cases v with
     | model skvs =>
       simp only [goodTy, remapOk, Bool.and_eq_true, List.all_eq_true, decide_eq_true_eq] at hg
       have hfam : subFamily sfs = true := by
         simp only [subFamily, Bool.and_eq_true, List.all_eq_true, decide_eq_true_eq]
-        exact ⟨fun f hf => ⟨(hg.1.1.1 f hf).1.1, hbasic f hf⟩, hg.1.1.2⟩
+        exact ⟨fun f hf => ⟨(hg.1.1.1 f hf).1.1, (hp f hf).1⟩, hg.1.1.2⟩
       have hr' : reprOk false (plainTop sfs) (.model skvs) = true := by
         simp only [reprOk] at hr ⊢; exact hr
       have hfo' : fieldOk false (plainTop sfs) (.model skvs) = true := by
         simp only [fieldOk] at hfo ⊢; exact hfo
       obtain ⟨D⟩ := subData_of_repr hfam hr' hfo'
-      exact packRT_sub f2h D
+      exact packRT_sub h2f f2h (fun f hf => (hp f hf).2) D
     | _ => simp [reprOk] at hr
 
 /-! ### the main induction -/
